@@ -21,7 +21,28 @@ After each commit or rollback (outer or savepoint), for every tracked object:
 After every other operation (3) is still evaluated; a difference there is a
 flush-content matter (C30) and only cuts the branch.
 
-Mutations caught: see MUTATIONS at the end of this docstring.
+Findings on the unchanged tree: (a) a primary key switched in the outer
+transaction and switched again inside a savepoint that is then released: the
+release overwrites the outer transaction's record of the *original* key
+(`_remove_snapshot`: `parent._key_switches.update(self._key_switches)`), so an
+outer rollback restores the wrong identity key and the object can no longer be
+loaded; (b) with expire_on_commit=False a flushed-deleted object stays in the
+"deleted" state after commit; (c) close() leaves flushed-deleted objects in
+the "deleted" state (same root causes as C35's findings).
+
+Mutations caught (private copy, `VF_REPO=/tmp/wt-orm1 ./check C33`):
+ * session.py `_restore_snapshot`: `s.key = oldkey` dropped (`_key_switches`
+   not restored) -> "keeps an identity key that is not its row's key"
+ * session.py `_remove_snapshot`: `parent._new.update(self._new)` dropped ->
+   "rollback: object persistent+inserted-in-open-tx -> persistent, documented: transient"
+ * session.py `_restore_snapshot`: `s.modified` dropped from the dirty_only
+   expiry condition -> "rollback: ... session membership dirty (True, False)"
+ * session.py `_remove_snapshot`: `parent._dirty.update(self._dirty)` dropped
+   -> "rollback: object persistent keeps loaded attribute values that differ
+   from the surviving scope's row"
+ * session.py `_register_persistent`: original key of a repeated switch not
+   kept (`orig_key = state.key` always) -> "keeps an identity key that is not
+   its row's key"
 """
 from __future__ import annotations
 
@@ -310,7 +331,7 @@ def shards(tier, seed):
     return [None]
 
 
-SHARD_TIMEOUT = dict(quick=1500, thorough=7200)
+SHARD_TIMEOUT = dict(quick=3600, thorough=6 * 3600)
 WARM = dict(
     plain=[("get", "Plain", 2), ("add", "x", None), ("set", "b1", "name", "w"), ("begin_nested",), ("delete", "b1"), ("sp_rollback",), ("flush",), ("commit",), ("set", "x", "name", "q"), ("rollback",), ("touch", "x", "name"), ("close",)],
     natural=[("get", "NNode", "k1"), ("add", "n", None), ("set", "b1", "code", "k2"), ("begin_nested",), ("delete", "b1"), ("sp_rollback",), ("flush",), ("commit",), ("set", "n", "val", "q"), ("rollback",), ("touch", "n", "val"), ("close",)],
